@@ -49,6 +49,14 @@ READS = RP_CONTRACTS[2:]
 PXC = 'pexpect.pxssh.pxssh.'
 
 PROPS = {
+    'C16': {
+        'contracts': ['pexpect.replwrap.REPLWrapper.run_command', 'pexpect._async_w_await.repl_run_command_async'],
+        'assumptions': [
+            'ASSUMED REPL contract: after a complete input the REPL prints the command output, which does not contain the prompt, then exactly one prompt; after incomplete input it prints the continuation prompt. Under it the value proved to be returned (the before of every wait, in order) is the output of the command. Whether real bash / python honour this (large outputs, missing final newline, after SIGINT) is behaviour of external programs and is NOT claimed',
+            'the child is seen through oracles (expect_exact returns prompt / continuation index or raises; sendline and kill are recorded)',
+            'the blocking and the awaited form are proved against the same specification (same sends, same waits, same result)',
+        ],
+    },
     'C12': {
         'contracts': ['pexpect.run.run'],
         'assumptions': [
